@@ -31,6 +31,7 @@ ASSUMPTIONS = [
 REQUIRED = ["failed_exports_before_ordinary_ones", "exports_without_namespace_declarations", "exports_at_a_deeper_level", "dense_special_cases", "prefix_pair_cases", "vocabulary_attribute_cases", "vocabulary_content_cases", "exported_again_after_in_place_edits", "fragment_exports", "general_exports", "eml_exports", "expat_accepts", "libxml2_accepts", "reimports", "special:<:content", "special:&:content",
             "special:\":attribute", "special:<:attribute", "special:&:attribute", "special:&:extras", "special:<:tail", "special:&:uri",
             "trees_with_nested_declarations"]
+THREAD_HAMMER = "full"      # (mode T side shards: the hammering threads also import, load and copy documents of their own)
 EXHAUSTIVE = {"quick": False, "thorough": False}
 
 
